@@ -259,12 +259,12 @@ Section Cover.
 Variable pyint : str -> option Z.
 Variable d : data.
 
-(** Every literal-site lookup of a reportable message in [tr] is a message
+(** Every literal-site lookup in [tr] is a message
     event of [evs] at the position of its origin. *)
 Definition covered (evs : list ev) (tr : trace) : Prop :=
   forall tc m,
     In tc tr -> tc_lit tc = true ->
-    mtext_of_call (tc_call tc) = Some m -> reportable m = true ->
+    mtext_of_call (tc_call tc) = Some m ->
     In (EvMsg (tc_pos tc) m) evs.
 
 Lemma covered_nil evs : covered evs [].
@@ -272,12 +272,12 @@ Proof. intros tc m []. Qed.
 
 Lemma covered_incl evs evs' tr :
   incl evs evs' -> covered evs tr -> covered evs' tr.
-Proof. intros I C tc m H1 H2 H3 H4. apply I. eapply C; eauto. Qed.
+Proof. intros I C tc m H1 H2 H3. apply I. eapply C; eauto. Qed.
 
 Lemma covered_app e1 e2 t1 t2 :
   covered e1 t1 -> covered e2 t2 -> covered (e1 ++ e2) (t1 ++ t2).
 Proof.
-  intros C1 C2 tc m H1 H2 H3 H4. apply in_or_app.
+  intros C1 C2 tc m H1 H2 H3. apply in_or_app.
   apply in_app_or in H1 as [H1|H1]; [left; eapply C1|right; eapply C2]; eauto.
 Qed.
 
@@ -343,7 +343,7 @@ Lemma eval_branch_covered pos p fs :
   covered (map (EvMsg pos) (first_filter_message p fs))
           (fst (eval_branch pyint d pos p fs)).
 Proof.
-  intros tc m H L M NE. unfold eval_branch in H.
+  intros tc m H L M. unfold eval_branch in H.
   destruct p as [s|k|z| |b];
     try (apply apply_filters_nolit in H; congruence).
   cbn [eval_prim tls] in H.
@@ -375,14 +375,25 @@ Lemma translate_covered pos args sing plural :
   covered (visit (NTranslate pos args sing plural))
           (fst (render_node pyint d (NTranslate pos args sing plural))).
 Proof.
-  intros tc m H L M NE. cbn [render_node] in H.
-  destruct (tr_call pyint d args sing plural) as [c| | |] eqn:E; cbn [fst] in H;
-    try (destruct H; fail).
-  destruct H as [H|[]]. subst tc. cbn [tc_call tc_pos tc_lit] in *.
-  pose proof (tr_call_reportable _ _ _ _ _ _ _ E M NE) as P.
-  destruct (tr_call_literal _ _ _ _ _ _ E L P) as [m' [T M']].
-  rewrite M in M'. inversion M'; subst m'.
-  cbn [visit]. right. apply in_or_app. left. rewrite T. cbn. left. reflexivity.
+  intros tc m H L M. cbn [render_node] in H.
+  assert (P : mb_parts sing <> [] \/ plural <> None ->
+              In tc (fst match tr_call pyint d args sing plural with
+                         | Ok c => ([{| tc_call := c; tc_pos := pos; tc_lit := tr_literal args |}], Ok tt)
+                         | e => ([], res_unit e)
+                         end) ->
+              In (EvMsg (tc_pos tc) m) (visit (NTranslate pos args sing plural))).
+  { intros NE H'.
+    destruct (tr_call pyint d args sing plural) as [c| | |] eqn:E; cbn [fst] in H';
+      try (destruct H'; fail).
+    destruct H' as [H'|[]]. subst tc. cbn [tc_call tc_pos tc_lit] in *.
+    destruct (tr_call_literal _ _ _ _ _ _ E L NE) as [m' [T M']].
+    rewrite M in M'. inversion M'; subst m'.
+    cbn [visit]. right. apply in_or_app. left. rewrite T. cbn. left. reflexivity. }
+  destruct (mb_parts sing) as [|p ps] eqn:EP.
+  - destruct plural as [pb|].
+    + apply P; [right; discriminate|exact H].
+    + destruct H.
+  - apply P; [left; discriminate|exact H].
 Qed.
 
 Lemma covered_cons_skip e evs tr : covered evs tr -> covered (e :: evs) tr.
@@ -430,11 +441,13 @@ Proof. reflexivity. Qed.
 
 Lemma visit_if pos cpos c conseq alts default :
   visit (NIf pos cpos c conseq alts default) =
-  EvLine pos :: visit_block conseq ++ visit_alts alts ++ visit_opt default.
+  EvLine pos :: expr_events (TPlain cpos c)
+  ++ visit_block conseq ++ visit_alts alts ++ visit_opt default.
 Proof. reflexivity. Qed.
 
 Lemma visit_for pos ipos s body default :
-  visit (NFor pos ipos s body default) = EvLine pos :: visit_block body ++ visit_opt default.
+  visit (NFor pos ipos s body default) =
+  EvLine pos :: expr_events (TPlain ipos s) ++ visit_block body ++ visit_opt default.
 Proof. reflexivity. Qed.
 
 Lemma visit_liquid pos body : visit (NLiquid pos body) = EvLine pos :: visit_block body.
@@ -444,16 +457,16 @@ Lemma visit_block_eq pos ns : visit_block (Block pos ns) = EvLine pos :: visit_n
 Proof. reflexivity. Qed.
 
 Lemma visit_nodes_cons n ns :
-  visit_nodes (NCons n ns) = node_expr_events n ++ visit n ++ visit_nodes ns.
+  visit_nodes (NCons n ns) = visit n ++ visit_nodes ns.
 Proof. reflexivity. Qed.
 
 Lemma visit_alts_cons pos cpos c b rest :
   visit_alts (ACons pos cpos c b rest) =
-  expr_events (TPlain cpos c) ++ EvLine pos :: visit_block b ++ visit_alts rest.
+  EvLine pos :: expr_events (TPlain cpos c) ++ visit_block b ++ visit_alts rest.
 Proof. reflexivity. Qed.
 
 Lemma render_covered :
-  (forall n, covered (node_expr_events n ++ visit n) (fst (render_node pyint d n))) /\
+  (forall n, covered (visit n) (fst (render_node pyint d n))) /\
   (forall b, covered (visit_block b) (fst (render_block pyint d b))) /\
   (forall ns, covered (visit_nodes ns) (fst (render_nodes pyint d ns))) /\
   (forall a, forall r, render_alts pyint d a = Some r -> covered (visit_alts a) (fst r)) /\
@@ -463,13 +476,13 @@ Proof.
   - (* NText *) intros pos. apply covered_nil.
   - (* NComment *) intros pos text. apply covered_nil.
   - (* NExpr *)
-    intros k pos e. rewrite render_node_expr. cbn [node_expr_events].
-    eapply covered_incl; [apply incl_appl, incl_refl|apply eval_texpr_covered].
+    intros k pos e. rewrite render_node_expr. cbn [visit].
+    apply covered_cons_skip, eval_texpr_covered.
   - (* NIf *)
     intros pos cpos c conseq Hc alts Ha default Hd.
     rewrite render_node_if, visit_if.
     eapply (covered_incl (visit_block conseq ++ visit_alts alts ++ visit_opt default)).
-    { apply incl_appr, incl_tl, incl_refl. }
+    { apply incl_tl, incl_appr, incl_refl. }
     destruct (liquid_truthy (eval_prim d c)).
     + eapply covered_incl; [apply incl_appl, incl_refl|apply Hc].
     + destruct (render_alts pyint d alts) as [r|] eqn:E.
@@ -481,28 +494,27 @@ Proof.
     intros pos ipos stop body Hb default Hd.
     rewrite render_node_for, visit_for.
     eapply (covered_incl (visit_block body ++ visit_opt default)).
-    { apply incl_appr, incl_tl, incl_refl. }
+    { apply incl_tl, incl_appr, incl_refl. }
     destruct (range_len pyint (eval_prim d stop)) as [|k].
     + eapply covered_incl; [apply incl_appr, incl_refl|apply Hd].
     + eapply covered_incl; [apply incl_appl, incl_refl|].
       apply covered_repeat, Hb.
   - (* NTranslate *)
-    intros pos args sing plural.
-    eapply covered_incl; [apply incl_appr, incl_refl|apply translate_covered].
+    intros pos args sing plural. apply translate_covered.
   - (* NLiquid *)
-    intros pos body Hb. rewrite render_node_liquid, visit_liquid. cbn [node_expr_events app].
+    intros pos body Hb. rewrite render_node_liquid, visit_liquid.
     apply covered_cons_skip, Hb.
   - (* Block *)
     intros pos ns Hn. rewrite render_block_eq, visit_block_eq. apply covered_cons_skip, Hn.
   - (* NNil *) apply covered_nil.
   - (* NCons *)
     intros n Hn ns Hns. rewrite render_nodes_cons, visit_nodes_cons.
-    rewrite app_assoc. apply covered_seq; assumption.
+    apply covered_seq; assumption.
   - (* ANil *) intros r H. discriminate.
   - (* ACons *)
     intros pos cpos c b Hb rest Hr r H. rewrite render_alts_cons in H. rewrite visit_alts_cons.
     eapply (covered_incl (visit_block b ++ visit_alts rest)).
-    { apply incl_appr, incl_tl, incl_refl. }
+    { apply incl_tl, incl_appr, incl_refl. }
     destruct (liquid_truthy (eval_prim d c)).
     + inversion H; subst. eapply covered_incl; [apply incl_appl, incl_refl|apply Hb].
     + eapply covered_incl; [apply incl_appr, incl_refl|apply (Hr r H)].
@@ -516,14 +528,13 @@ Theorem extraction_covers_lookups : forall t ms tc m,
   In tc (fst (render pyint d t)) ->
   tc_lit tc = true ->
   mtext_of_call (tc_call tc) = Some m ->
-  reportable m = true ->
   exists l cs,
     line_number (t_source t) (tc_pos tc) = Ok l /\
     In {| mt_line := l; mt_msg := m; mt_comments := cs |} ms.
 Proof.
-  intros t ms tc m E I L M NE.
+  intros t ms tc m E I L M.
   destruct render_covered as [_ [_ [Hns _]]].
-  pose proof (Hns (t_nodes t) tc m I L M NE) as Hin.
+  pose proof (Hns (t_nodes t) tc m I L M) as Hin.
   unfold extract in E. unfold template_events in E.
   destruct (t_nodes t) eqn:N.
   - destruct Hin.
@@ -533,24 +544,18 @@ Qed.
 
 End Cover.
 
-(** The guard [reportable m] cannot be dropped: a translate tag with an empty
-    message block and no plural block asks the catalog for the id "" (its
-    header entry), and [messages()] reports nothing for it. *)
+(** After fix 0010 an empty translate tag does not consult the catalog, so no
+    guard on the message id is needed: the only guard left is [tc_lit]. *)
 Definition empty_block_template : template :=
   {| t_source := [123; 37; 32; 116; 32; 37; 125; 123; 37; 32; 101; 32; 37; 125]%N;
      t_nodes := NCons (NTranslate 0 [] {| mb_pos := 7; mb_parts := [] |} None) NNil |}.
 
-Lemma empty_id_lookup_not_extracted :
-  exists t tc,
-    In tc (fst (render (fun _ => None) [] t)) /\ tc_lit tc = true /\
-    tc_call tc = CGettext (Some []) /\ extract t = Ok [].
-Proof.
-  exists empty_block_template,
-         {| tc_call := CGettext (Some []); tc_pos := 0%N; tc_lit := true |}.
-  vm_compute. repeat split. left. reflexivity.
-Qed.
+Lemma empty_tag_makes_no_lookup :
+  fst (render (fun _ => None) [] empty_block_template) = []
+  /\ extract empty_block_template = Ok [].
+Proof. vm_compute. split; reflexivity. Qed.
 
-(** The guard [tc_lit] cannot be dropped either (known findings
+(** The guard [tc_lit] cannot be dropped (known findings
     translate-nonliteral-context, filter-nonliteral-operand): a message
     context or plural operand that is not a string literal is looked up with
     its run-time value, while extraction reports another family or nothing.
@@ -573,7 +578,7 @@ Definition uncovered (t : template) : Prop :=
   exists ms tc m,
     extract t = Ok ms /\
     In tc (fst (render (fun _ => None) [] t)) /\
-    mtext_of_call (tc_call tc) = Some m /\ reportable m = true /\
+    mtext_of_call (tc_call tc) = Some m /\
     forall mt, In mt ms -> mt_msg mt <> m.
 
 Lemma extraction_covers_lookups_refuted :
@@ -584,12 +589,12 @@ Proof.
            {| tc_call := CPgettext [53%N] (Some [97%N]); tc_pos := 0%N; tc_lit := false |},
            (MPgettext [53%N] [97%N]).
     split; [vm_compute; reflexivity|]. split; [vm_compute; auto|].
-    split; [reflexivity|]. split; [reflexivity|].
+    split; [reflexivity|].
     intros mt [H|[]]. subst mt. discriminate.
   - exists [], {| tc_call := CGettext (Some [97%N]); tc_pos := 4%N; tc_lit := false |},
            (MGettext [97%N]).
     split; [vm_compute; reflexivity|]. split; [vm_compute; auto|].
-    split; [reflexivity|]. split; [reflexivity|].
+    split; [reflexivity|].
     intros mt [].
 Qed.
 
@@ -735,8 +740,8 @@ Example sample_comment_split :
     exists pre1 mid, pre = pre1 ++ EvComment 0 [32;84;114;97;110;115;108;97;116;111;114;115;58;32;99;32]%N :: mid
                      /\ quiet mid = true.
 Proof.
-  eexists (firstn 7 (template_events sample_template)), _.
+  eexists (firstn 8 (template_events sample_template)), _.
   split; [vm_compute; reflexivity|].
-  exists [], (tl (firstn 7 (template_events sample_template))).
+  exists [], (tl (firstn 8 (template_events sample_template))).
   vm_compute. split; reflexivity.
 Qed.
